@@ -143,6 +143,17 @@ def list_step(ctx, prog, fn, direction):
                     fa, fb = lin(prog, fn, d.args[1]), lin(prog, fn, d.args[2])
                     if isinstance(fa, dict) and isinstance(fb, dict):
                         val = decide_cmp(d.args[0], fa, fb, case)
+                        if val is None:
+                            # a position compared with a constant next to u32::MAX: a handle in contract is a position, and
+                            # EMPTY_REF = u32::MAX is none (`index.checked_add(1)` succeeds for every position)
+                            def huge(f_):
+                                return set(f_) <= {1} and f_.get(1, 0) >= 2 ** 32 - 16
+                            def smallpos(f_):
+                                return all(k_ == 1 or v_ >= 0 for k_, v_ in f_.items()) and abs(f_.get(1, 0)) <= 8 and any(k_ != 1 for k_ in f_)
+                            if huge(fb) and smallpos(fa):
+                                val = {'Lt': True, 'Le': True, 'Gt': False, 'Ge': False, 'Ne': True, 'Eq': False}[d.args[0]]
+                            elif huge(fa) and smallpos(fb):
+                                val = {'Lt': False, 'Le': False, 'Gt': True, 'Ge': True, 'Ne': True, 'Eq': False}[d.args[0]]
                     elif (fa == 'EMPTY') != (fb == 'EMPTY'):
                         val = None
                 if val is None and d.kind != 'bin':
